@@ -654,7 +654,7 @@ func runLifecycleKind(c *hx.Ctx) {
 		}
 	}
 	// (2) seeded scenarios + random operation lists, length <= 12, 2-3 clusters, 1-3 addresses, thresholds 0..3
-	for i := 0; i < c.N(3000, 40000); i++ {
+	for i := 0; i < c.N(3000, 30000); i++ {
 		lcEmit(c, lcRandomCase(c, 4+c.Rng.Intn(9)), st, "random")
 	}
 	cnt := func(key string, n int) {
